@@ -1,0 +1,17 @@
+//go:build verif
+
+package parameter
+
+// VerifYield, when set, is called at scheduling points of the deterministic
+// simulation harness. The pinned tree has no synchronisation in this package
+// and therefore no call sites; the harness inserts calls mechanically (in
+// copies, via go build -overlay) before any synchronisation operation a
+// change under test may add. It only ever parks the calling goroutine.
+// Compiled in with -tags verif only.
+var VerifYield func(site string)
+
+func verifYield(site string) {
+	if f := VerifYield; f != nil {
+		f(site)
+	}
+}
